@@ -240,8 +240,9 @@ class AbstractAst:
                 var = class_()
             except KeyError:
                 raise RTAMTException('The type {} does not seem to be imported.'.format(var_type))
-            except (AttributeError, TypeError) as err:
+            except Exception as err:
                 # the module has no such class, or the name is not a class that can be instantiated without arguments
+                # (whatever the imported callable raises: a variable of that type cannot be created)
                 raise RTAMTException('The type {0} cannot be instantiated: {1}'.format(var_type, err))
         return var
 
